@@ -450,3 +450,26 @@ func (g *Gate) Offer(v int) {
 
 // Push waits for room.
 func (g *Gate) Push(v int) { g.work <- v }
+
+// --- opt: max-deletes ---
+
+// ForgetOnce deletes from its local map in one place.
+func ForgetOnce(keys []string) int {
+	pending := map[string]struct{}{}
+	for _, k := range keys {
+		pending[k] = struct{}{}
+	}
+	delete(pending, "x")
+	return len(pending)
+}
+
+// ForgetTwice has a second delete statement.
+func ForgetTwice(keys []string) int {
+	pending := map[string]struct{}{}
+	for _, k := range keys {
+		pending[k] = struct{}{}
+	}
+	delete(pending, "x")
+	delete(pending, "y")
+	return len(pending)
+}
